@@ -56,7 +56,8 @@ pub fn syntax_name(s: &SyntaxError) -> &'static str {
     }
 }
 
-pub fn ev_of(r: &Result<Event, Error>) -> Ev {
+/// the record of one result, without any cross-check
+pub fn ev_raw(r: &Result<Event, Error>) -> Ev {
     match r {
         Ok(Event::Eof) => Ev::Eof,
         Ok(Event::Text(t)) => Ev::Text(B(t.to_vec())),
@@ -78,6 +79,139 @@ pub fn ev_of(r: &Result<Event, Error>) -> Ev {
         Err(Error::Io(e)) => Ev::Io(format!("{:?}:{}", e.kind(), e)),
         Err(e) => Ev::Other(format!("{:?}", e)),
     }
+}
+
+
+/// Everything an event exposes must survive the ownership / copy conversions of its type:
+/// `borrow`, `clone`, `into_owned`, `to_owned`, the `Deref` to bytes, the per-kind `into_inner`,
+/// `BytesStart::to_end`, and the name parts must partition the name. `None` = consistent.
+pub fn conversion_defect(e: &Event) -> Option<String> {
+    fn raw<'a>(e: Event<'a>) -> Ev {
+        ev_raw(&Ok(e))
+    }
+    let base = raw(e.borrow());
+    macro_rules! same {
+        ($what:expr, $ev:expr) => {{
+            let other = $ev;
+            if other != base {
+                return Some(format!("{} changed the event: {:?} became {:?}", $what, base, other));
+            }
+        }};
+    }
+    same!("Event::clone", raw(e.clone()));
+    same!("Event::into_owned", raw(e.clone().into_owned()));
+    same!("Event::borrow of the owned copy", raw(e.clone().into_owned().borrow()));
+    same!("Event::as_ref", raw(AsRef::<Event>::as_ref(e).borrow()));
+    let bytes: &[u8] = e;
+    match e {
+        Event::Start(s) | Event::Empty(s) => {
+            let wrap = |b: quick_xml::events::BytesStart<'static>| if matches!(e, Event::Start(_)) { Event::Start(b) } else { Event::Empty(b) };
+            same!("BytesStart::to_owned", raw(wrap(s.to_owned())));
+            same!("BytesStart::into_owned", raw(wrap(s.clone().into_owned())));
+            same!("BytesStart::borrow + into_owned", raw(wrap(s.borrow().into_owned())));
+            if bytes != &s[..] {
+                return Some(format!("Deref of the event and of its BytesStart differ: {:?} vs {:?}", B::show(bytes), B::show(&s[..])));
+            }
+            let n = s.name().as_ref().len();
+            if s.attributes_raw() != &s[n..] {
+                return Some(format!("attributes_raw is not the content after the name: {:?} of {:?}", B::show(s.attributes_raw()), B::show(&s[..])));
+            }
+            if s.to_end().name().as_ref() != s.name().as_ref() || &s.to_end()[..] != s.name().as_ref() {
+                return Some(format!("to_end() of {:?} names {:?}", B::show(&s[..]), B::show(&s.to_end()[..])));
+            }
+            if s.to_owned().to_end().into_owned().name().as_ref() != s.name().as_ref() {
+                return Some(format!("to_end() of the owned copy of {:?} has another name", B::show(&s[..])));
+            }
+            if let Ok(text) = std::str::from_utf8(&s[..]) {
+                same!("BytesStart::from_content(content, name_len)", raw(wrap(quick_xml::events::BytesStart::from_content(text.to_string(), n))));
+            }
+            let name = s.name();
+            let (local, prefix) = name.decompose();
+            let ok = match prefix {
+                Some(p) => [p.as_ref(), b":", local.as_ref()].concat() == name.as_ref(),
+                None => local.as_ref() == name.as_ref(),
+            };
+            if !ok || s.local_name().as_ref() != local.as_ref() || name.prefix().map(|p| p.as_ref().to_vec()) != prefix.map(|p| p.as_ref().to_vec()) {
+                return Some(format!("prefix / local name do not partition the name {:?}", B::show(name.as_ref())));
+            }
+        }
+        Event::End(x) => {
+            same!("BytesEnd::into_owned", raw(Event::End(x.clone().into_owned())));
+            same!("BytesEnd::borrow + into_owned", raw(Event::End(x.borrow().into_owned())));
+            if x.name().as_ref() != bytes {
+                return Some(format!("BytesEnd::name {:?} is not its content {:?}", B::show(x.name().as_ref()), B::show(bytes)));
+            }
+            let (local, prefix) = x.name().decompose();
+            let ok = match prefix {
+                Some(p) => [p.as_ref(), b":", local.as_ref()].concat() == bytes,
+                None => local.as_ref() == bytes,
+            };
+            if !ok || x.local_name().as_ref() != local.as_ref() {
+                return Some(format!("prefix / local name do not partition the end name {:?}", B::show(bytes)));
+            }
+        }
+        Event::Text(t) | Event::Comment(t) | Event::DocType(t) => {
+            let wrap = |b: quick_xml::events::BytesText<'static>| match e {
+                Event::Text(_) => Event::Text(b),
+                Event::Comment(_) => Event::Comment(b),
+                _ => Event::DocType(b),
+            };
+            same!("BytesText::into_owned", raw(wrap(t.clone().into_owned())));
+            same!("BytesText::borrow + into_owned", raw(wrap(t.borrow().into_owned())));
+            if &t.clone().into_inner()[..] != bytes || &t.clone().into_owned().into_inner()[..] != bytes {
+                return Some(format!("BytesText::into_inner differs from the content {:?}", B::show(bytes)));
+            }
+            if let Ok(text) = std::str::from_utf8(bytes) {
+                same!("BytesText::from_escaped(content)", raw(wrap(quick_xml::events::BytesText::from_escaped(text.to_string()))));
+            }
+        }
+        Event::CData(c) => {
+            same!("BytesCData::into_owned", raw(Event::CData(c.clone().into_owned())));
+            same!("BytesCData::borrow + into_owned", raw(Event::CData(c.borrow().into_owned())));
+            if &c.clone().into_inner()[..] != bytes {
+                return Some(format!("BytesCData::into_inner differs from the content {:?}", B::show(bytes)));
+            }
+            if let Ok(text) = std::str::from_utf8(bytes) {
+                same!("BytesCData::new(content)", raw(Event::CData(quick_xml::events::BytesCData::new(text.to_string()))));
+            }
+        }
+        Event::PI(p) => {
+            same!("BytesPI::into_owned", raw(Event::PI(p.clone().into_owned())));
+            same!("BytesPI::borrow + into_owned", raw(Event::PI(p.borrow().into_owned())));
+            if &p.clone().into_inner()[..] != bytes {
+                return Some(format!("BytesPI::into_inner differs from the content {:?}", B::show(bytes)));
+            }
+            if !bytes.starts_with(p.target()) || !bytes.ends_with(p.content()) || p.target().len() + p.content().len() > bytes.len() {
+                return Some(format!("target {:?} / content {:?} are not a prefix / suffix of {:?}", B::show(p.target()), B::show(p.content()), B::show(bytes)));
+            }
+            if let Ok(text) = std::str::from_utf8(bytes) {
+                same!("BytesPI::new(content)", raw(Event::PI(quick_xml::events::BytesPI::new(text.to_string()))));
+            }
+        }
+        Event::Decl(d) => {
+            same!("BytesDecl::into_owned", raw(Event::Decl(d.clone().into_owned())));
+            same!("BytesDecl::borrow + into_owned", raw(Event::Decl(d.borrow().into_owned())));
+            if let Ok(text) = std::str::from_utf8(bytes) {
+                same!("BytesDecl::from_start(from_content(content, 3))", raw(Event::Decl(quick_xml::events::BytesDecl::from_start(quick_xml::events::BytesStart::from_content(text.to_string(), 3)))));
+            }
+            let show = |r: Option<Result<std::borrow::Cow<[u8]>, quick_xml::events::attributes::AttrError>>| r.map(|x| x.map(|c| c.into_owned()));
+            let o = d.clone().into_owned();
+            if show(d.encoding()) != show(o.encoding()) || show(d.standalone()) != show(o.standalone()) || d.version().ok().map(|c| c.into_owned()) != o.version().ok().map(|c| c.into_owned()) {
+                return Some(format!("the fields of the declaration {:?} change with into_owned", B::show(bytes)));
+            }
+        }
+        Event::Eof => {}
+    }
+    None
+}
+
+pub fn ev_of(r: &Result<Event, Error>) -> Ev {
+    if let Ok(e) = r {
+        if let Some(d) = conversion_defect(e) {
+            return Ev::Other(format!("CONVERSION: {}", d));
+        }
+    }
+    ev_raw(r)
 }
 
 #[derive(Debug, Clone, PartialEq, Eq, Hash, Serialize, Deserialize)]
